@@ -32,6 +32,7 @@ from . import c02 as C2
 from . import gw
 from .c13 import legal_key_shim, quote_model
 from .gw import Fail
+from baize.exceptions import HTTPException
 
 PID = "C05"
 
@@ -340,6 +341,11 @@ def job_stream(job) -> report.JobResult:
             close_after = None if k == n + 1 else k
         e.path_notes.update(raise_at=raise_at, fault=fault, close_after=close_after)
         app = make_app(raise_at)
+        if job.get("reuse"):
+            # the same response object (mounted as an application) served a client before that disconnected at once; what that
+            # client saw must be a legal prefix, and the NEXT client still gets a complete legal sequence
+            ev0, done0 = gw.run_asgi(app, scope("GET"), receive_script=[{"type": "http.disconnect"}], use_loop=True)
+            gw.check_asgi(e, ev0, done0)
         ev, done, raised = run_and_check(e, iface, app, send_fault_at=fault, close_after=close_after, use_loop=(iface == "asgi"))
         for x in raised:
             if not isinstance(x[1], (Boom, gw.ClientGone)):
@@ -355,6 +361,9 @@ def job_stream(job) -> report.JobResult:
         Engine.cur = None
         try:
             app = make_app(wit["raw"].get("raise_at"))
+            if job.get("reuse"):
+                ev0, done0 = gw.run_asgi(app, scope("GET"), receive_script=[{"type": "http.disconnect"}], use_loop=True)
+                gw.check_asgi(_PlainEngine(), ev0, done0)
             ev, done, raised = run_and_check(_PlainEngine(), iface, app, send_fault_at=wit["raw"].get("fault"), close_after=wit["raw"].get("close_after"),
                                              use_loop=(iface == "asgi"))
             for x in raised:
@@ -500,12 +509,114 @@ def jobs(tier: str):
             for n in ((1, 2) if mode.startswith("download-name") else (1,)):
                 out.append(dict(name=f"file/{iface}/{mode}/n{n}", kind="file", iface=iface, mode=mode, n=n, recipe="file", weight=30))
     out.append(dict(name="twin/small", kind="small", iface="asgi", recipe="response", what="header", n=1, twin=True))
+    for iface in ("wsgi", "asgi"):
+        for app in ("files", "pages"):
+            out.append(dict(name=f"static/{iface}/{app}/file-vanishes", kind="static-vanish", iface=iface, app=app))
+    for cls in ("stream", "sse"):
+        for n in (1, 2):
+            out.append(dict(name=f"stream/asgi/{cls}/n{n}/second-client-after-a-disconnect", kind="stream", iface="asgi", cls=cls, items=n, reuse=True, weight=30))
     out.append(dict(name="twin/stream", kind="stream", iface="wsgi", cls="stream", items=1, twin=True))
     return out
 
 
+# ------------------------------------------------------------------ static-file apps with a 404 handler: the file vanishes at a chosen point
+def job_static_vanish(job) -> report.JobResult:
+    """Files / Pages with handle_404 configured, on REAL files: the served file is removed before the request, or between the app's stat() and the
+    response's open() (i.e. when the response start goes out), or never -- the removal point is a solver-decided choice; whatever was emitted
+    must be a legal prefix (exactly one start ...), with or without an exception"""
+    import os
+    import tempfile
+    import baize.asgi.staticfiles as AS_
+    import baize.wsgi.staticfiles as WS_
+    res = report.JobResult.new(job["name"])
+    twin = job.get("twin", False)
+    iface, app_kind = job["iface"], job["app"]
+    eng = Engine(budget_s=300)
+
+    def run(when: int, e):
+        M = WS_ if iface == "wsgi" else AS_
+        with tempfile.TemporaryDirectory() as d:
+            p = os.path.join(d, "f.html")
+            with open(p, "w") as f:
+                f.write("0123456789")
+            if iface == "wsgi":
+                def not_found(environ, start_response):
+                    start_response("404 Not Found", [("content-type", "text/plain")])
+                    return [b"custom 404"]
+            else:
+                async def not_found(scope_, receive, send):
+                    await send({"type": "http.response.start", "status": 404, "headers": [(b"content-type", b"text/plain")]})
+                    await send({"type": "http.response.body", "body": b"custom 404"})
+            app = (M.Files if app_kind == "files" else M.Pages)(d, handle_404=not_found)
+
+            def vanish():
+                if os.path.exists(p):
+                    os.remove(p)
+            if when == 0:
+                vanish()
+            ev: List[Any] = []
+            done = False
+            if iface == "wsgi":
+                def start_response(status, headers, exc_info=None):
+                    ev.append(("start", status, list(headers), exc_info))
+                    if when == 1:
+                        vanish()
+                    return lambda b: ev.append(("write", b))
+                it = None
+                try:
+                    it = app({"REQUEST_METHOD": "GET", "PATH_INFO": "/f.html", "SCRIPT_NAME": ""}, start_response)
+                    for chunk in it:
+                        ev.append(("body", chunk))
+                    done = True
+                except Exception as ex:  # noqa: BLE001
+                    ev.append(("raise", ex))
+                finally:
+                    if it is not None and hasattr(it, "close"):
+                        it.close()
+                gw.check_wsgi(e, ev, done)
+            else:
+                async def send(m):
+                    ev.append(("send", m))
+                    if when == 1 and m["type"] == "http.response.start":
+                        vanish()
+
+                async def receive():
+                    return {"type": "http.disconnect"}
+                try:
+                    asyncio.run(app({"type": "http", "method": "GET", "path": "/f.html", "root_path": "", "headers": []}, receive, send))
+                    done = True
+                except Exception as ex:  # noqa: BLE001
+                    ev.append(("raise", ex))
+                gw.check_asgi(e, ev, done)
+            for x in ev:
+                if x[0] == "raise" and not isinstance(x[1], (OSError, HTTPException)):
+                    raise Fail(f"exception:{type(x[1]).__name__}", repr(x[1]))
+            return "faulted" if not done else "complete"
+
+    def fn():
+        e = cur()
+        when = e.choose(3, "file_removed")  # 0 before the request, 1 between stat() and open(), 2 never
+        e.path_notes.update(file_removed=when)  # 0 before the request, 1 between stat() and open(), 2 never
+        out = run(when, e)
+        if twin:
+            raise Fail("twin-assert-false")
+        return out
+
+    def concrete(wit):
+        prev = Engine.cur
+        Engine.cur = None
+        try:
+            run(wit["raw"]["file_removed"], _PlainEngine())
+            return None
+        except Fail as f:
+            return f"{f.klass}: {f.detail}"
+        finally:
+            Engine.cur = prev
+    return _explore(res, eng, fn, Shims(), job, sym_desc=lambda m: dict(Engine.cur.path_notes), twin=twin, concrete=concrete)
+
+
 def run_job(job):
-    return {"small": job_small, "stream": job_stream, "file": job_file}[job["kind"]](job)
+    return {"small": job_small, "stream": job_stream, "file": job_file, "static-vanish": job_static_vanish}[job["kind"]](job)
 
 
 def replay(rec) -> int:
